@@ -177,6 +177,32 @@ pub fn main(a: &Args) -> i32 {
                 graphs += 1; max_nodes = max_nodes.max(nn); max_height = max_height.max(h);
             }
         }
+        // hammer: hundreds of in-place rewrites (same size, or shrinking) of a few neighbouring cells, then inserts and growing
+        // updates around them - the page's free-space accounting must still be exact when the leaf fills up
+        if sg.failed.is_none() && !overflow_profile && !present.is_empty() && r.random_range(0..3) == 0 {
+            let nsz = sg.sizes.len();
+            let mut near: Vec<usize> = present.clone();
+            near.sort();
+            let at = r.random_range(0..near.len());
+            let near: Vec<usize> = near.into_iter().skip(at.saturating_sub(3)).take(6).collect();
+            let v0 = r.random_range(0..nsz);
+            for j in 0..r.random_range(400..700) {
+                if sg.failed.is_some() { break; }
+                let k = near[j % near.len()];
+                let v = (v0 + nsz * (j % (sg.npay / nsz).max(1))) % sg.npay;   // another payload of the same size class
+                sg.op(if j % 3 == 0 { "upsert" } else { "update" }, k, v); nops += 1;
+            }
+            if sg.failed.is_none() { sg.graph(); graphs += 1; }
+            let lo = *near.first().unwrap();
+            let hi = (*near.last().unwrap() + 40).min(n - 1);
+            for k in lo.saturating_sub(40)..=hi {
+                if sg.failed.is_some() { break; }
+                let v = r.random_range(0..sg.npay);
+                if present.contains(&k) { sg.op("update", k, v); } else { sg.op("insert", k, v); if sg.failed.is_none() { present.push(k); } }
+                nops += 1;
+            }
+            if sg.failed.is_none() { sg.scan(false); sg.graph(); graphs += 1; }
+        }
         // delete everything, then insert again
         if sg.failed.is_none() && r.random_bool(0.5) {
             present.shuffle(&mut r);
